@@ -29,7 +29,7 @@ ASSUMPTIONS = [
     'float32 rounding once = numpy astype(float32) of the float64 value converted by scipp to the declared unit',
     'clock frozen',
 ]
-REQUIRED_CLASSES = ['experiments_reused_ok', 'beyond_float32_range', 'pixels_equal', 'units_converted', 'indirect', 'direct', 'en2d', 'deg_input', 'reader_ok', 'multi_chunk', 'empty_string']
+REQUIRED_CLASSES = ['all_rows_float32', 'non_ascii_strings', 'experiments_reused_ok', 'beyond_float32_range', 'pixels_equal', 'units_converted', 'indirect', 'direct', 'en2d', 'deg_input', 'reader_ok', 'multi_chunk', 'empty_string']
 BOUND = {
     'quick': 'pixels 0..20000, chunk 1..100000, 3 unit sets; runs 1/2/20; both modes',
     'thorough': 'same plus 100000 pixels',
@@ -68,13 +68,20 @@ def cases(tier):
     for dtype in ('float32',):
         for n in (1, 13):
             out.append({'kind': 'pixels', 'n_pixels': n, 'chunk': 4, 'units': 'default', 'byteorder': 'little', 'sink': 'bytes', 'dtype': dtype})
+    # every combination of value dtype and index dtype of the nine rows (all-float32 rows are what a pixel block read
+    # from another file holds)
+    for dtype in ('float64', 'float32'):
+        for idt in ('int64', 'int32', 'float64', 'float32'):
+            for n in (0, 1, 13):
+                for bo in ('little', 'big'):
+                    out.append({'kind': 'pixels', 'n_pixels': n, 'chunk': 4, 'units': 'alt' if dtype == 'float64' else 'default', 'byteorder': bo, 'sink': 'bytes', 'dtype': dtype, 'index_dtype': idt})
     for runs in (1, 2, 20):
         for mode in ('direct', 'indirect'):
             for en2d in ((False, True) if mode == 'indirect' else (False,)):
                 for efix_array in ((False, True) if mode == 'direct' else (False,)):
                     for au in ('rad', 'deg'):
                         for eu in ('meV', 'eV', 'ueV'):
-                            for strings in ('plain', 'empty', 'long'):
+                            for strings in ('plain', 'empty', 'long', 'nonascii'):
                                 for bo in ('little', 'big'):
                                     if runs == 20 and (strings != 'plain' or eu == 'ueV'):
                                         continue
@@ -114,7 +121,9 @@ def _open(data):
 
 def run_pixels(case, rec):
     n = case['n_pixels']
-    da = sq.pixel_data(n, case['units'], case.get('dtype', 'float64'))
+    da = sq.pixel_data(n, case['units'], case.get('dtype', 'float64'), case.get('index_dtype', 'int64'))
+    if case.get('dtype') == 'float32' and case.get('index_dtype') == 'float32':
+        rec.cls('all_rows_float32')
     want = sq.expected_pixel_rows(da)
     snap = da.copy(deep=True)
     with warnings.catch_warnings():
@@ -194,6 +203,8 @@ def _strings(kind, r):
         return '', ''
     if kind == 'long':
         return 'n' * 300 + str(r), '/' + 'p' * 1000
+    if kind == 'nonascii':
+        return f'l\u00e4uft_{r}_\u65e5\u672c.nxspe', '/data/\u00e9t\u00e9/\U0001d11e'  # 2-, 3- and 4-byte UTF-8 sequences
     return f'run_{r}.nxspe', '/data/x'
 
 
@@ -204,7 +215,7 @@ def run_experiments(case, rec):
     for r, rid in enumerate(ids):
         fn, fp = _strings(case['strings'], r)
         exps.append(sq.experiment(run_id=rid, mode=case['mode'], angle_unit=case['angle_unit'], energy_unit=case['energy_unit'], en2d=case['en2d'], efix_array=case['efix_array'], filename=fn, filepath=fp))
-    data, _ = sq.write_file(('inst', 'pix', 'samp'), byteorder=case['byteorder'], sink='bytes', n_pixels=5, experiments=exps)
+    data, _ = sq.write_file(('inst', 'pix', 'samp'), byteorder=case['byteorder'], sink='bytes', n_pixels=5, experiments=exps, title='Titel \u00fc\u4e2d' if case['strings'] == 'nonascii' else 'T')
     rec.transitions += 1
     site = 'SqwBuilder.create'
     try:
@@ -219,6 +230,8 @@ def run_experiments(case, rec):
         rec.cls('deg_input')
     if case['strings'] == 'empty':
         rec.cls('empty_string')
+    if case['strings'] == 'nonascii':
+        rec.cls('non_ascii_strings')
     mh = sqwdec.struct_of(dec['blocks'][('', 'main_header')])
     if sqwdec.scalar(mh['nfiles']) != float(runs):
         rec.viol(site, 'nfiles', f'main header nfiles {sqwdec.scalar(mh["nfiles"])}, expected {runs}')
